@@ -37,6 +37,8 @@
                  (index, subindex) keys, each at its place
    R7 assignment a class that declares out_pdos / in_pdos leaves 0x1C12 / 0x1C13 holding exactly that list
                  (EBPFTerminal.write_pdos; subindex 0 = the number of assigned PDOs)
+                 and the list is one the device allows: no PDO twice, no PDO together with one it excludes
+                 (the device's PDO parameter objects 0x14xx / 0x18xx, subindex 6)
    R8 service    every ServiceDesc(index, subindex) of a matching class is an entry of the device's dictionary
    R9 identity   initialize succeeds on a matching device with a well-formed description, and a class whose
                  `compatibility` does not contain the device's identity refuses it (EBPFTerminal.apply_eeprom)
@@ -101,6 +103,16 @@ NonZero(s) == SelectSeq(s, LAMBDA x : x # 0)          \* an assignment slot hold
 AssignmentWF(od, asg) == \A k \in 1 .. Len(asg) : asg[k] = 0 \/ (OdKnown(od, asg[k]) /\ OdListWF(od, asg[k], 4))
 CoEPdos(od, asg, smno) == LET nz == NonZero(asg) IN
                           Force([k \in 1 .. Len(nz) |-> CoEPdo(od, nz[k], smno)], Len(nz))
+
+(* PDOs that must not be assigned together: the PDO parameter object of PDO p (0x1400.. for 0x1600..,
+   0x1800.. for 0x1A00..) lists in subindex 6 the PDOs that p excludes (ETG.1000.6 5.6.7.4 / ETG.1020)   *)
+ParamObj(p) == p - 512
+Excluded(od, p) ==
+    IF OdHas(od, ParamObj(p), 6)
+    THEN {U16(OdVal(od, ParamObj(p), 6), 2 * (k - 1)) : k \in 1 .. (Len(OdVal(od, ParamObj(p), 6)) \div 2)} \ {0}
+    ELSE {}
+AssignmentAdmissible(od, asg) ==
+    \A i, j \in 1 .. Len(asg) : (i # j /\ asg[i] # 0) => (asg[j] # asg[i] /\ asg[j] \notin Excluded(od, asg[i]))
 
 ---------------------------------------------------------------------------
 (* 2. layout of a direction: the entries of the assigned PDOs one after the other from bit 0; padding
